@@ -10,9 +10,11 @@ save under the event discipline (`C04_complete_partial`), crash safety of every 
 (`C04_crash`, `C04_old_roots`).  The event discipline (`Disc`: a replaced node is live; and `hcov`: the nodes of the
 final tree are in the live set computed from the events) is NOT proved for the events emitted by
 `insertE`/`deleteE`/merge; it is checked by the harness on the recorded Go event log of every generated history
-(`checkDiscipline` in go/harness/mptstore.go).  The full statement is `C04_complete_statement`.
+(`checkDiscipline` in go/harness/mptstore.go).  `C04_complete` is the closed form for a round of inserts/deletes on one trie:
+there the discipline is proved (Lemmas/EventDisc, EventKeys, MptRound) and only key injectivity (`KeyInjOn`) is assumed.
 -/
 import Verif.Lemmas.MptStoreTrie
+import Verif.Lemmas.MptRound
 namespace Verif.Props.C04
 open Verif.Mpt Verif.MptStore Verif.MptStore.Collector
 
@@ -125,23 +127,58 @@ example : Resolves id
     simp [insertE, refs, eventRefs] at ha hb
     rw [ha, hb]
 
-/-- The full statement of completeness: for the events actually emitted by a sequence of inserts and deletes of a
-    block trie (no discipline hypotheses).  NOT proved (see the header); `C04_complete_partial` is this statement with
-    `Disc` and the cover property as explicit hypotheses. -/
-inductive RoundEvents (v : Nat) : Node → List Event → Node → Prop where
-  | nil (t : Node) : RoundEvents v t [] t
-  | ins (t : Node) (p : List Nib) (b : Bytes) (es : List Event) (t' : Node) :
-      RoundEvents v (insertE v b t [] p).1 es t' → RoundEvents v t ((insertE v b t [] p).2 ++ es) t'
-  | del (t n : Node) (p : List Nib) (ev es : List Event) (t' : Node) :
-      deleteE v t [] p = (.node n, ev) → RoundEvents v n es t' → RoundEvents v t (ev ++ es) t'
+/-- **Saved state is complete** — closed form for a round of inserts and deletes on the block trie: the event
+    discipline is PROVED for the emitted events (`Lemmas/EventDisc`: every replaced or deleted node is live, the final
+    tree's nodes are live, at the level of (position, subtree) references; `Lemmas/EventKeys`: transfer to keys).
+    Remaining hypotheses: the start tree is canonical and resolves, the collector is fresh, and the key is injective on
+    the references of the start tree and of the round's events (`KeyInjOn`: SHA3 collision resistance plus absence of
+    the untagged-encoding confusions of finding C02-type-confusion among these nodes). -/
+theorem C04_complete (H : Bytes → Bytes) (P0 : PStore) (t0 t : Node) (b0 : Trie) (v : Nat) (es : List Event)
+    (hfresh : b0.cc.changes = [] ∧ b0.cc.deletes = [])
+    (h0 : Resolves H (Map.get P0.nodes) t0 [])
+    (hw : WF t0)
+    (hr : RoundEvents v t0 es t)
+    (hU : KeyInjOn H (fun r => r ∈ refs t0 [] ∨ r ∈ eventRefs es)) :
+    Resolves H (Map.get (P0.applyAll (saveStream H (b0.applyEvents H es))).nodes) t [] := by
+  obtain ⟨hd, hc, _⟩ := round_discipline H hr hw hU
+  obtain ⟨_, hcr, _⟩ := round_ok hr hw (fun r => r ∈ refs t0 []) (fun _ h => h)
+  have hsub : ∀ r ∈ refs t [], r ∈ refs t0 [] ∨ r ∈ eventRefs es := fun r h => liveRunR_sub es _ r (hcr r h)
+  apply C04_complete_partial H P0 t0 t b0 es hfresh h0 hd hc
+  intro a b ha hb hk
+  have haU : a ∈ refs t0 [] ∨ a ∈ eventRefs es := by
+    rcases ha with ha | ha | ha
+    · exact Or.inl ha
+    · exact hsub a ha
+    · exact Or.inr ha
+  have hbU : b ∈ refs t0 [] ∨ b ∈ eventRefs es := by
+    rcases hb with hb | hb | hb
+    · exact Or.inl hb
+    · exact hsub b hb
+    · exact Or.inr hb
+  rw [hU a b haU hbU hk]
 
-def C04_complete_statement : Prop :=
-  ∀ (H : Bytes → Bytes) (P0 : PStore) (t0 t : Node) (b0 : Trie) (v : Nat) (es : List Event),
-    (b0.cc.changes = [] ∧ b0.cc.deletes = []) →
-    Resolves H (Map.get P0.nodes) t0 [] →
-    RoundEvents v t0 es t →
-    KeyFaithful H (fun r => r ∈ refs t0 [] ∨ r ∈ refs t [] ∨ r ∈ eventRefs es) →
-    Resolves H (Map.get (P0.applyAll (saveStream H (b0.applyEvents H es))).nodes) t []
+/-- non-vacuity of `C04_complete`: a round that inserts a key and overwrites it, saved into an empty store -/
+example : ∃ t, RoundEvents 1 .empty ((insertE 1 [65] .empty [] [3]).2 ++ ((insertE 1 [66] (.leaf 1 [3] [65]) [] [3]).2 ++ [])) t ∧
+    Resolves id (Map.get (({} : PStore).applyAll (saveStream id ((Trie.open [] .empty 1).applyEvents id
+      ((insertE 1 [65] .empty [] [3]).2 ++ ((insertE 1 [66] (.leaf 1 [3] [65]) [] [3]).2 ++ []))))).nodes) t [] := by
+  have hr : RoundEvents 1 .empty ((insertE 1 [65] .empty [] [3]).2 ++ ((insertE 1 [66] (.leaf 1 [3] [65]) [] [3]).2 ++ []))
+      (.leaf 1 [3] [66]) := by
+    apply RoundEvents.ins _ _ _ _ _ (by simp)
+    have h1 : (insertE 1 [65] .empty [] [3]).1 = .leaf 1 [3] [65] := by simp [insertE]
+    rw [h1]
+    apply RoundEvents.ins _ _ _ _ _ (by simp)
+    have h2 : (insertE 1 [66] (.leaf 1 [3] [65]) [] [3]).1 = .leaf 1 [3] [66] := by simp [insertE, splitCommon]
+    rw [h2]
+    exact RoundEvents.nil _
+  refine ⟨_, hr, C04_complete id {} .empty _ (Trie.open [] .empty 1) 1 _ ⟨rfl, rfl⟩ ?_ (Or.inl rfl) hr ?_⟩
+  · intro r h; simp [refs] at h
+  · intro a b ha hb hk
+    simp [refs, insertE, splitCommon, eventRefs] at ha hb
+    have hne : Ref.key id ⟨[], .leaf 1 [3] [65]⟩ ≠ Ref.key id ⟨[], .leaf 1 [3] [66]⟩ := by
+      intro h
+      simp [Ref.key, key, le64] at h
+    rcases ha with ha | ha <;> rcases hb with hb | hb <;> subst ha <;> subst hb <;>
+      first | rfl | exact absurd hk hne | exact absurd hk.symm hne
 
 /-- **Crash safety of a save.**  For ANY prefix of the save's write stream `[batch of new nodes, dead-node record]`
     every tree that resolved in the store before the save still resolves. -/
